@@ -195,7 +195,7 @@ func universe(depth int) []reflect.Type {
 		X jsontext.Value `json:",embed"`
 	}
 	extra := []any{map[*[]int]string{}, map[any]string{}, map[[2]string]int{}, map[*string]int{}, map[bool]int{}, map[int8]map[uint64]string{}, map[float32]string{}, map[string]jsontext.Value{},
-		[]jsontext.Value{}, struct{ R jsontext.Value }{}, inl{}, inlV{}, emb{}, map[typeuniv.NamedString]map[string]string{}, struct {
+		[]jsontext.Value{}, struct{ R jsontext.Value }{}, inl{}, inlV{}, emb{}, []any{}, map[string]any{}, (*any)(nil), struct{ A, B any }{}, map[typeuniv.NamedString]map[string]string{}, struct {
 			A string `json:"x"`
 			B string `json:"X,case:ignore"`
 		}{}}
@@ -227,6 +227,28 @@ func extraValues(t reflect.Type) []reflect.Value {
 		add(map[any]string{1.0: "a", 1: "b"})
 		add(map[any]string{"1": "a", 1: "b"})
 		add(map[any]string{[2]string{"a"}: "x"})
+	case "[]interface {}", "map[string]interface {}", "*interface {}", "struct { A interface {}; B interface {} }":
+		// untyped containers (fast paths that bypass the token state machine): nil, empty, nested empties, behind *any
+		un := []any{nil, []any{}, []any(nil), map[string]any{}, map[string]any(nil), []any{[]any{}, map[string]any{}}, map[string]any{"a": []any{}, "b": map[string]any{}}, "s", 1.5, true, []any{1.0}, map[string]any{"k": nil}}
+		for _, u := range un {
+			switch t.Kind() {
+			case reflect.Slice:
+				if x, ok := u.([]any); ok {
+					add(x)
+				}
+				add([]any{u})
+			case reflect.Map:
+				if x, ok := u.(map[string]any); ok {
+					add(x)
+				}
+				add(map[string]any{"k": u})
+			case reflect.Pointer:
+				p := u
+				add(&p)
+			case reflect.Struct:
+				add(struct{ A, B any }{u, u})
+			}
+		}
 	case "map[*string]int":
 		a, b := "a", "a"
 		add(map[*string]int{&a: 1, &b: 2})
